@@ -4,6 +4,10 @@ import Std.Tactic.Do
 open Std.Do
 namespace CanVerif
 
+/-- the ghost bound of a specification, wrapped so that it is only ever instantiated from the precondition -/
+@[irreducible] def bnd (n : Nat) : Nat := n
+theorem bnd_eq (n : Nat) : bnd n = n := by unfold bnd; rfl
+
 theorem wp_ok {ε α : Type} (a : α) (Q : PostCond α (.except ε .pure)) : wp⟦(Except.ok a : Except ε α)⟧ Q = Q.1 a := by
   simp [wp, Except.instWP._aux_1, Id.run, ExceptT.run, PredTrans.pushExcept]; rfl
 theorem wp_err {ε α : Type} (e : ε) (Q : PostCond α (.except ε .pure)) : wp⟦(Except.error e : Except ε α)⟧ Q = Q.2.1 e := by
